@@ -6,7 +6,7 @@
 use super::*;
 use crate::verif_stubs as vs;
 
-fn mk_table(col: u8, bits: u8) -> IndexTable {
+pub(crate) fn mk_table(col: u8, bits: u8) -> IndexTable {
 	IndexTable {
 		id: TableId::new(col, bits),
 		map: RwLock::new(None),
